@@ -602,18 +602,8 @@ def r5_consumers(repo: Repo, rep):
             rep.undecided(R, fi.site(stores[0].node), fi.fq, "stratum formula evaluable", str(err))
     if n_lhs == 0:
         rep.undecided(R, fi.site(), fi.fq, "a path storing the axis points", "none")
-    sp = lhs.methods.get("_sample_points")
-    if sp is not None:
-        rep.saw(sp)
-        calls = [c for c in ast.walk(sp.node) if isinstance(c, ast.Call) and dump(c.func) == "self.domain.bounding_box"]
-        from .c02 import _single_row, _local_defs
-        defs = _local_defs(sp.node)
-        a0 = calls[0].args[0] if calls and calls[0].args else None
-        if isinstance(a0, ast.Name) and a0.id in defs:
-            a0 = defs[a0.id]
-        good = len(calls) == 1 and a0 is not None and _single_row(a0)
-        inloop = any(isinstance(l, ast.For) and any(c is calls[0] for c in ast.walk(l)) for l in ast.walk(sp.node)) if calls else False
-        rep.check(R, good and inloop, sp.site(), sp.fq, "LHS uses the box of the current parameter row (inside the per-row loop)", dump(calls[0])[:80] if calls else "no call", "lhs box")
+    # (the box of the current parameter row inside the per-row loop: decided by R-C18-15)
+    r15_lhs_per_row_per_axis(repo, rep)
 
 
 def r7_signatures(repo: Repo, rep):
